@@ -4,6 +4,8 @@
    thresholds R (2*max_distance^2, strict) and M (max_distance^2, inclusive), EVERY target_values
    list and EVERY raster size. *)
 Require Import Base.Prelude Base.XVal C06.Model C06.Proofs C06.ProofsSpec C06.ProofsFill C06.Bounded.
+Require Import C06.Bearing C06.BearingProofs C06.BearingRange.
+From Coq Require Import PrimFloat SpecFloat.
 
 (* every non-NaN proximity is the distance key from the cell to ONE real target cell (in bounds,
    passing the target test) — the cell remembered in output_img, i.e. the one whose value allocation
@@ -12,7 +14,7 @@ Theorem C06_named_target_real :
   forall key tie_up R M xc yc values img r c e,
   let g := process key tie_up R M xc yc values img in
   let h := lenZ img in let w := lenZ (nthZ [] img 0) in
-  coords_ok xc w -> coords_ok yc h -> key 0 0 = 0 -> ele (EFin 0) M = true ->
+  coords_ok xc w -> coords_ok yc h -> key_self0 key -> ele (EFin 0) M = true ->
   0 <= r < h -> 0 <= c < w ->
   prox_of g r c = LVal e ->
   exists tr tc d,
@@ -39,7 +41,7 @@ Theorem C06_prox_zero_iff_target :
   (prox_of g r c = LVal (EFin 0) <-> is_target values (cellv img r c) = true).
 Proof.
   intros key tie_up R M xc yc values img r c g h w Hx Hy Hix Hiy Hpd HM Hrect Hr Hc.
-  assert (Hk : key 0 0 = 0) by (apply Hpd; auto).
+  assert (Hk : key_self0 key) by (intros x y; apply Hpd; auto).
   exact (zero_iff_target key tie_up R M xc yc values img Hx Hy Hk HM Hrect Hpd Hix Hiy r c Hr Hc).
 Qed.
 Print Assumptions C06_prox_zero_iff_target.
@@ -49,7 +51,7 @@ Theorem C06_never_underestimated :
   forall key tie_up R M xc yc values img r c d,
   let g := process key tie_up R M xc yc values img in
   let h := lenZ img in let w := lenZ (nthZ [] img 0) in
-  coords_ok xc w -> coords_ok yc h -> key 0 0 = 0 -> ele (EFin 0) M = true -> rect img ->
+  coords_ok xc w -> coords_ok yc h -> key_self0 key -> ele (EFin 0) M = true -> rect img ->
   0 <= r < h -> 0 <= c < w ->
   prox_of g r c = LVal (EFin d) ->
   exists b, brute key xc yc values img r c = Some b /\ b <= d.
@@ -79,7 +81,7 @@ Theorem C06_nan_beyond_max_distance :
   forall key tie_up R M xc yc values img r c,
   let g := process key tie_up R M xc yc values img in
   let h := lenZ img in let w := lenZ (nthZ [] img 0) in
-  coords_ok xc w -> coords_ok yc h -> key 0 0 = 0 -> ele (EFin 0) M = true ->
+  coords_ok xc w -> coords_ok yc h -> key_self0 key -> ele (EFin 0) M = true ->
   0 <= r < h -> 0 <= c < w ->
   (forall tr tc d, is_target values (cellv img tr tc) = true ->
                    dist2 key xc yc tr tc r c = Some d -> ele (EFin d) M = false) ->
@@ -125,7 +127,7 @@ Theorem C06_single_target_exact :
   forall key tie_up xc yc values img r0 c0 r c,
   let g := process key tie_up EInf EInf xc yc values img in
   let h := lenZ img in let w := lenZ (nthZ [] img 0) in
-  coords_ok xc w -> coords_ok yc h -> rect img -> key 0 0 = 0 ->
+  coords_ok xc w -> coords_ok yc h -> rect img -> key_self0 key ->
   is_target values (cellv img r0 c0) = true ->
   (forall r' c', is_target values (cellv img r' c') = true -> r' = r0 /\ c' = c0) ->
   0 <= r < h -> 0 <= c < w ->
@@ -143,6 +145,121 @@ Proof.
 Qed.
 Print Assumptions C06_single_target_exact.
 
+(* ---- direction: the bearing of _calc_direction (C06/Bearing.v: binary64 arithmetic, libm atan2 a parameter,
+   float32 store) to the SAME remembered target that proximity and allocation name ---- *)
+Theorem C06_direction_names_same_target :
+  forall atan2 key tie_up R M xc yc values img fxs fys r c e,
+  let g := process key tie_up R M xc yc values img in
+  let h := lenZ img in let w := lenZ (nthZ [] img 0) in
+  coords_ok xc w -> coords_ok yc h -> key_self0 key -> ele (EFin 0) M = true ->
+  0 <= r < h -> 0 <= c < w ->
+  prox_of g r c = LVal e ->
+  exists tr tc d,
+    index_of g r c = Some (tr, tc) /\ is_target values (cellv img tr tc) = true /\
+    dist2 key xc yc tr tc r c = Some d /\ e = EFin d /\
+    alloc_of img g r c = cellv img tr tc /\
+    direction_of atan2 fxs fys g r c =
+      calc_direction atan2 (nthZ nan fxs c) (nthZ nan fxs tc) (nthZ nan fys r) (nthZ nan fys tr).
+Proof.
+  intros atan2 key tie_up R M xc yc values img fxs fys r c e g h w Hx Hy Hk HM Hr Hc He.
+  destruct (named_target key tie_up R M xc yc values img Hx Hy Hk HM r c e Hr Hc He)
+    as (tr & tc & d & Hi & HT & Hd & He' & Hm).
+  exists tr, tc, d. unfold alloc_of, direction_of. subst g. rewrite Hi. simpl. repeat split; auto.
+Qed.
+Print Assumptions C06_direction_names_same_target.
+
+(* the direction output is NaN exactly where proximity is NaN *)
+Theorem C06_direction_nan_iff :
+  forall atan2 key tie_up R M xc yc values img fxs fys r c,
+  let g := process key tie_up R M xc yc values img in
+  0 <= r < lenZ img -> 0 <= c < lenZ (nthZ [] img 0) ->
+  prox_of g r c = LUnset -> direction_of atan2 fxs fys g r c = S754_nan.
+Proof.
+  intros atan2 key tie_up R M xc yc values img fxs fys r c g Hr Hc Hp.
+  pose proof (process_rows key tie_up R M xc yc values img r c Hr Hc) as H. fold g in H.
+  rewrite Hp in H. unfold direction_of. rewrite H. reflexivity.
+Qed.
+Print Assumptions C06_direction_nan_iff.
+
+(* 0 for the cell itself; exactly 90 / 180 / 270 / 360 for a target straight along +x / +y / -x / -y
+   (premises: the C99 Annex F values of atan2 on the axes) *)
+Theorem C06_bearing_axes :
+  forall atan2,
+  (forall x, (0 <? x)%float = true -> atan2 0%float x = 0%float /\ atan2 (-0)%float x = (-0)%float) ->
+  (forall x, (x <? 0)%float = true -> atan2 0%float x = PI /\ atan2 (-0)%float x = (- PI)%float) ->
+  (forall y x, (0 <? y)%float = true -> fzero x -> atan2 y x = PIO2) ->
+  (forall y x, (y <? 0)%float = true -> fzero x -> atan2 y x = (- PIO2)%float) ->
+  forall x1 x2 y1 y2,
+  (is_self x1 x2 y1 y2 = true -> calc_direction atan2 x1 x2 y1 y2 = S754_zero false) /\
+  (is_self x1 x2 y1 y2 = false ->
+     ((0 <? x2 - x1)%float = true -> fzero (y2 - y1)%float -> calc_direction atan2 x1 x2 y1 y2 = b32_of_Z 90) /\
+     ((0 <? y2 - y1)%float = true -> fzero (x2 - x1)%float -> calc_direction atan2 x1 x2 y1 y2 = b32_of_Z 180) /\
+     ((x2 - x1 <? 0)%float = true -> fzero (y2 - y1)%float -> calc_direction atan2 x1 x2 y1 y2 = b32_of_Z 270) /\
+     ((y2 - y1 <? 0)%float = true -> fzero (x2 - x1)%float -> calc_direction atan2 x1 x2 y1 y2 = b32_of_Z 360)).
+Proof.
+  intros atan2 H1 H2 H3 H4 x1 x2 y1 y2. split.
+  - apply direction_self.
+  - intros Hs. repeat split; intros.
+    + apply direction_east; auto.
+    + apply direction_south; auto.
+    + apply direction_west; auto.
+    + apply direction_north; auto.
+Qed.
+Print Assumptions C06_bearing_axes.
+
+(* a non-self target gets a direction in (0, 360] (premise: atan2 of finite arguments is finite with magnitude
+   <= the double nearest pi); the strict lower bound needs atan2(-y, x) * 57.29578 <> 90.0 exactly - see the
+   witness C06_bearing_zero_nonself_witness *)
+Theorem C06_bearing_range :
+  forall atan2,
+  (forall y x, PrimFloat.is_finite y = true -> PrimFloat.is_finite x = true ->
+     PrimFloat.is_finite (atan2 y x) = true /\ (abs (atan2 y x) <=? PI)%float = true) ->
+  forall x1 x2 y1 y2,
+  is_self x1 x2 y1 y2 = false ->
+  PrimFloat.is_finite (x2 - x1)%float = true -> PrimFloat.is_finite (y2 - y1)%float = true ->
+  let r := calc_direction atan2 x1 x2 y1 y2 in
+  SFleb (S754_zero false) r = true /\ SFleb r (b32_of_Z 360) = true /\
+  ((atan2 (- (y2 - y1)) (x2 - x1) * DEG =? 90)%float = false -> SFltb (S754_zero false) r = true).
+Proof. exact direction_range. Qed.
+Print Assumptions C06_bearing_range.
+
+(* direction = 0 iff the cell is its own target (same premises) *)
+Theorem C06_bearing_zero_iff_self :
+  forall atan2,
+  (forall y x, PrimFloat.is_finite y = true -> PrimFloat.is_finite x = true ->
+     PrimFloat.is_finite (atan2 y x) = true /\ (abs (atan2 y x) <=? PI)%float = true) ->
+  forall x1 x2 y1 y2,
+  (is_self x1 x2 y1 y2 = false ->
+     PrimFloat.is_finite (x2 - x1)%float = true /\ PrimFloat.is_finite (y2 - y1)%float = true /\
+     (atan2 (- (y2 - y1)) (x2 - x1) * DEG =? 90)%float = false) ->
+  (calc_direction atan2 x1 x2 y1 y2 = S754_zero false <-> is_self x1 x2 y1 y2 = true).
+Proof. exact direction_zero_iff_self. Qed.
+Print Assumptions C06_bearing_zero_iff_self.
+
+(* the libm premises are satisfiable: a function with the C99 axis values, finite and bounded by pi elsewhere *)
+Definition toy_atan2 (y x : float) : float :=
+  if (y =? 0)%float then
+    (if (0 <? x)%float then y
+     else if (x <? 0)%float then (if (get_sign y) then (- PI)%float else PI) else y)
+  else if (x =? 0)%float then (if (0 <? y)%float then PIO2 else if (y <? 0)%float then (- PIO2)%float else 0%float)
+  else 1%float.
+Example C06_bearing_premises_satisfiable :
+  toy_atan2 0%float 2%float = 0%float /\ toy_atan2 (-0)%float 2%float = (-0)%float /\
+  toy_atan2 0%float (-2)%float = PI /\ toy_atan2 (-0)%float (-2)%float = (- PI)%float /\
+  toy_atan2 3%float 0%float = PIO2 /\ toy_atan2 (-3)%float (-0)%float = (- PIO2)%float /\
+  map (fun q => calc_direction toy_atan2 (fst (fst q)) (snd (fst q)) (fst (snd q)) (snd (snd q)))
+      [((1, 1), (5, 5)); ((1, 4), (5, 5)); ((1, 1), (5, 7)); ((4, 1), (5, 5)); ((1, 1), (7, 5))]%float
+  = [S754_zero false; b32_of_Z 90; b32_of_Z 180; b32_of_Z 270; b32_of_Z 360].
+Proof. vm_compute. repeat split. Qed.
+
+(* boundary witness (reproduced on the implementation, known finding): when atan2 returns the double
+   0x1.921fb50aed4d0p+0 (so that the product with 57.29578 rounds to exactly 90.0) a NON-self target gets direction 0 *)
+Example C06_bearing_zero_nonself_witness :
+  let at2 := fun _ _ : float => 0x1.921fb50aed4d0p+0%float in
+  is_self 0 0x1.caac24234c3ffp-27 1 0 = false /\
+  calc_direction at2 0 0x1.caac24234c3ffp-27 1 0 = S754_zero false.
+Proof. vm_compute. split; reflexivity. Qed.
+
 (* bounded supplement (vm_compute): for EVERY target layout on EVERY grid up to 3x4 / 4x3 with unit
    cells, EUCLIDEAN, max_distance in {inf, 1, sqrt 2, 2}: proximity = exact brute-force nearest
    distance (NaN exactly when it exceeds max_distance) *)
@@ -155,8 +272,8 @@ Print Assumptions C06_bounded_exact_small.
 (* ---- unclaimed: exactness for all layouts; refuted by the witness below ---- *)
 Definition C06_exact_full_statement : Prop :=
   forall xc yc img r c, 0 <= r < lenZ img -> 0 <= c < lenZ (nthZ [] img 0) ->
-    prox_of (process key_euclid (fun _ => false) EInf EInf xc yc [] img) r c =
-    expected EInf (brute key_euclid xc yc [] img r c).
+    prox_of (process (metric_of_key key_euclid) (fun _ => false) EInf EInf xc yc [] img) r c =
+    expected EInf (brute (metric_of_key key_euclid) xc yc [] img r c).
 Example C06_not_exact_witness : ~ C06_exact_full_statement.
 Proof.
   intros H. apply witness_neq. apply H; vm_compute; split; congruence.
@@ -167,8 +284,8 @@ Example C06_nonvacuous :
   let xc := map Some [10; 12; 14] in let yc := map Some [5; 4] in
   let img := [[XFin 0; XFin 7; XFin 0]; [XFin 0; XFin 0; XNaN]] in
   coords_ok xc 3 /\ coords_ok yc 2 /\ coords_inj xc 3 /\ coords_inj yc 2 /\ rect img /\
-  key_pd key_euclid /\ key_pd key_manhattan /\
-  let g := process key_euclid (fun _ => false) (EFin 9) (EFin 4) xc yc [] img in
+  key_pd (metric_of_key key_euclid) /\ key_pd (metric_of_key key_manhattan) /\
+  let g := process (metric_of_key key_euclid) (fun _ => false) (EFin 9) (EFin 4) xc yc [] img in
   map (fun c => prox_of g 0 c) [0; 1; 2] = [LVal (EFin 4); LVal (EFin 0); LVal (EFin 4)] /\
   map (fun c => prox_of g 1 c) [0; 1; 2] = [LUnset; LVal (EFin 1); LUnset] /\
   map (fun c => index_of g 1 c) [0; 1; 2] = [None; Some (0, 1); None] /\
@@ -184,7 +301,13 @@ Proof.
   split; [intros i j Hi Hj; assert (i = 0 \/ i = 1) as [->| ->] by lia;
           assert (j = 0 \/ j = 1) as [->| ->] by lia; vm_compute; congruence|].
   split; [intros r Hr; assert (r = 0 \/ r = 1) as [->| ->] by (unfold lenZ in Hr; simpl in Hr; lia); reflexivity|].
-  split; [unfold key_pd, key_euclid; intros; nia|].
-  split; [unfold key_pd, key_manhattan; intros; nia|].
+  split; [unfold key_pd, metric_of_key, key_euclid; intros x1 x2 y1 y2; split;
+          [intros H; pose proof (Z.square_nonneg (x1 - x2)); pose proof (Z.square_nonneg (y1 - y2));
+           assert (Ha : (x1 - x2) * (x1 - x2) = 0) by lia; assert (Hb : (y1 - y2) * (y1 - y2) = 0) by lia;
+           apply Z.mul_eq_0 in Ha; apply Z.mul_eq_0 in Hb; lia
+          |intros [-> ->]; rewrite !Z.sub_diag; reflexivity]|].
+  split; [unfold key_pd, metric_of_key, key_manhattan; intros x1 x2 y1 y2; split;
+          [intros H; apply Z.mul_eq_0 in H; lia
+          |intros [-> ->]; rewrite !Z.sub_diag; reflexivity]|].
   vm_compute. repeat split.
 Qed.
